@@ -1067,5 +1067,307 @@ func TestVerifC19(t *testing.T) {
 			cur = next
 		}
 	}
+	// ---------------- sessions: one process, several files, several spellings of their paths ----------------
+	// "Writing a configuration and loading it back" names the file twice, and nothing says both times with the same
+	// string: get/tidy build the path from the workspace root, resolution loads dawn.toml of cached projects, a root
+	// may be reached through a symbolic link, a path may be relative.  What a load returns must be a function of the
+	// FILE the path names at that moment (the last configuration written to it, through any spelling) and not of the
+	// spelling or of what this process loaded or wrote earlier.  A session is a sequence of WriteConfigFile /
+	// LoadConfigFile calls over three files and 16 spellings, with changes of the working directory and a symbolic link
+	// that is re-pointed in between (one spelling, different files).  The harness keeps its own account of which file
+	// each spelling names; oracle at every load of a file that was written in the session: the loaded configuration is
+	// the last one written to that file, the bytes of the file are those of a write to a fresh path and writing what
+	// was loaded reproduces them.  Every session is replayed in a directory of its own (fresh path strings).
+	//   {"t":"session","kind":..,"init":[present0,present1,present2],"ops":[{"op":"write","sp":k,"spelling":..,"file":f,"cfg":C} |
+	//      {"op":"load","sp":k,"spelling":..,"file":f,"err":bool,"loaded":C|null} | {"op":"chdir","to":..} | {"op":"retarget","to":..}],
+	//      "final":[hex|null x3]}
+	type sop struct {
+		kind string // write, load, chdir, retarget
+		sp   int
+		cfg  *Config
+		to   int // chdir: 0 real, 1 other, 2 real/sub; retarget: 0 real, 1 other
+	}
+	type session struct {
+		init [3]bool // the file exists (empty) before the session
+		ops  []sop
+	}
+	spNames := []string{"$W/real/dawn.toml", "$W/real/./dawn.toml", "$W/real//dawn.toml", "$W/real/sub/../dawn.toml",
+		"$W/other/../real/dawn.toml", "$W/link/dawn.toml (link -> real)", "$W/real/alias.toml (-> dawn.toml)",
+		"$W/real/hard.toml (hard link)", "dawn.toml (relative)", "./dawn.toml (relative)", "relative path from the working directory to $W/real/dawn.toml",
+		"$W/cur/dawn.toml (cur -> real | other)", "$W/other/dawn.toml", "$W/real/sub/dawn.toml", "$W/link/../other/dawn.toml", "$W/link/sub/dawn.toml"}
+	const nSp = 16
+	origWd, _ := os.Getwd()
+	defer os.Chdir(origWd)
+	nWorld := 0
+	type sessRes struct {
+		rec      []map[string]any
+		final    []any
+		fail     string // first oracle failure ("" = none)
+		failAt   int
+		detail   string
+		panicked bool
+	}
+	playSession := func(se session) (res sessRes) {
+		nWorld++
+		W := filepath.Join(dir, fmt.Sprintf("w%06d", nWorld))
+		defer func() { os.Chdir(origWd); os.RemoveAll(W) }()
+		dirs := []string{filepath.Join(W, "real"), filepath.Join(W, "other"), filepath.Join(W, "real", "sub")}
+		os.MkdirAll(dirs[2], 0o755)
+		os.MkdirAll(dirs[1], 0o755)
+		canon := []string{filepath.Join(dirs[0], "dawn.toml"), filepath.Join(dirs[1], "dawn.toml"), filepath.Join(dirs[2], "dawn.toml")}
+		os.Symlink("real", filepath.Join(W, "link"))
+		os.Symlink("real", filepath.Join(W, "cur"))
+		os.Symlink("dawn.toml", filepath.Join(dirs[0], "alias.toml"))
+		for f, present := range se.init {
+			if present {
+				os.WriteFile(canon[f], nil, 0o644)
+			}
+		}
+		hard := se.init[0]
+		if hard {
+			os.Link(canon[0], filepath.Join(dirs[0], "hard.toml"))
+		}
+		cwd, cur := 0, 0
+		os.Chdir(dirs[0])
+		sep := string(filepath.Separator)
+		// the path string of spelling k and the file it names now (-1 = not available in this state)
+		spell := func(k int) (string, int) {
+			switch k {
+			case 0:
+				return canon[0], 0
+			case 1:
+				return dirs[0] + sep + "." + sep + "dawn.toml", 0
+			case 2:
+				return dirs[0] + sep + sep + "dawn.toml", 0
+			case 3:
+				return dirs[2] + sep + ".." + sep + "dawn.toml", 0
+			case 4:
+				return dirs[1] + sep + ".." + sep + "real" + sep + "dawn.toml", 0
+			case 5:
+				return filepath.Join(W, "link") + sep + "dawn.toml", 0
+			case 6:
+				return filepath.Join(dirs[0], "alias.toml"), 0
+			case 7:
+				if !hard {
+					return "", -1
+				}
+				return filepath.Join(dirs[0], "hard.toml"), 0
+			case 8:
+				return "dawn.toml", cwd
+			case 9:
+				return "." + sep + "dawn.toml", cwd
+			case 10:
+				rel, err := filepath.Rel(dirs[cwd], canon[0])
+				if err != nil {
+					return "", -1
+				}
+				return rel, 0
+			case 11:
+				return filepath.Join(W, "cur") + sep + "dawn.toml", cur
+			case 12:
+				return canon[1], 1
+			case 13:
+				return canon[2], 2
+			case 14:
+				return filepath.Join(W, "link") + sep + ".." + sep + "other" + sep + "dawn.toml", 1
+			case 15:
+				return filepath.Join(W, "link") + sep + "sub" + sep + "dawn.toml", 2
+			}
+			return "", -1
+		}
+		last := [3]*Config{}
+		scratch := filepath.Join(W, "scratch.toml")
+		note := func(i int, name, detail string) {
+			if res.fail == "" {
+				res.fail, res.failAt, res.detail = name, i, detail
+			}
+		}
+		for i, o := range se.ops {
+			switch o.kind {
+			case "chdir":
+				cwd = o.to
+				os.Chdir(dirs[cwd])
+				res.rec = append(res.rec, map[string]any{"op": "chdir", "to": []string{"$W/real", "$W/other", "$W/real/sub"}[cwd]})
+			case "retarget":
+				cur = o.to
+				os.Remove(filepath.Join(W, "cur"))
+				os.Symlink([]string{"real", "other"}[cur], filepath.Join(W, "cur"))
+				res.rec = append(res.rec, map[string]any{"op": "retarget", "to": []string{"$W/cur -> real", "$W/cur -> other"}[cur]})
+			case "write":
+				pth, f := spell(o.sp)
+				if f < 0 {
+					continue
+				}
+				err, p := c19write(pth, o.cfg)
+				if p {
+					res.panicked = true
+					note(i, "write-panics", "")
+					return
+				}
+				res.rec = append(res.rec, map[string]any{"op": "write", "sp": o.sp, "spelling": spNames[o.sp], "file": f, "cfg": c19export(o.cfg)})
+				if err != nil {
+					note(i, "session-write-fails", err.Error())
+					return
+				}
+				last[f] = o.cfg
+				if b, _ := os.ReadFile(canon[f]); string(b) != string(fresh(o.cfg)) {
+					note(i, "session-write-leaves-other-bytes-than-a-fresh-write", hex.EncodeToString(b))
+				}
+			case "load":
+				pth, f := spell(o.sp)
+				if f < 0 {
+					continue
+				}
+				got, err, p := c19load(pth)
+				if p {
+					res.panicked = true
+					note(i, "load-panics", "")
+					return
+				}
+				res.rec = append(res.rec, map[string]any{"op": "load", "sp": o.sp, "spelling": spNames[o.sp], "file": f, "err": err != nil, "loaded": c19export(got)})
+				if last[f] == nil {
+					continue // never written in this session: nothing to round-trip
+				}
+				switch {
+				case err != nil:
+					note(i, "session-load-of-written-file-fails", err.Error())
+				case !c19same(got, last[f]):
+					lj, _ := json.Marshal(c19export(got))
+					note(i, "session-load-differs-from-last-write-to-the-file", string(lj))
+				default:
+					os.Remove(scratch)
+					c19write(scratch, got)
+					b2, _ := os.ReadFile(scratch)
+					if b, _ := os.ReadFile(canon[f]); string(b) != string(b2) {
+						note(i, "session-write-of-loaded-differs-from-file", hex.EncodeToString(b2))
+					}
+				}
+			}
+		}
+		for f := range canon {
+			if b, err := os.ReadFile(canon[f]); err == nil {
+				res.final = append(res.final, hex.EncodeToString(b))
+			} else {
+				res.final = append(res.final, nil)
+			}
+		}
+		return
+	}
+	nSess, nSessFail := 0, 0
+	doSession := func(kind string, se session) {
+		res := playSession(se)
+		nSess++
+		rwStats["session:"+kind]++
+		for _, o := range res.rec {
+			rwStats["session-op:"+o["op"].(string)]++
+		}
+		if !res.panicked {
+			emit(map[string]any{"t": "session", "kind": kind, "init": se.init, "ops": res.rec, "final": res.final})
+		}
+		if res.fail == "" || nSessFail >= 40 {
+			return
+		}
+		nSessFail++
+		small := se
+		if nSessFail <= 10 { // drop operations (from the end first) while the same oracle keeps failing; each replay is in a fresh directory
+			for again := true; again; {
+				again = false
+				for i := len(small.ops) - 1; i >= 0; i-- {
+					cand := session{init: small.init, ops: append(append([]sop{}, small.ops[:i]...), small.ops[i+1:]...)}
+					if r := playSession(cand); r.fail == res.fail {
+						small, again = cand, true
+						break
+					}
+				}
+			}
+			for f := range small.init {
+				cand := small
+				cand.init[f] = false
+				if r := playSession(cand); r.fail == res.fail {
+					small = cand
+				}
+			}
+		}
+		sr := playSession(small)
+		if sr.fail == "" {
+			small, sr = se, res
+		}
+		var cfg *c19cfg
+		for _, o := range sr.rec {
+			if o["op"] == "write" {
+				cfg = o["cfg"].(*c19cfg) // the last configuration written: what the failing load should have seen
+			}
+		}
+		emit(map[string]any{"t": "ORACLE", "name": sr.fail, "cfg": cfg, "bytes": "", "detail": sr.detail, "from": "session:" + kind,
+			"session": map[string]any{"init": small.init, "ops": sr.rec, "failing_op": len(sr.rec) - 1, "final": sr.final}})
+	}
+	tiny := func() *Config { // small valid configurations: the sessions are about paths, the strings are exercised above
+		c := &Config{}
+		if rng.Intn(2) == 0 {
+			c.Name = rs()
+		}
+		if rng.Intn(3) == 0 {
+			c.Ignore = []string{rs()}
+		}
+		for n := rng.Intn(3); n > 0; n-- {
+			if c.Requirements == nil {
+				c.Requirements = map[string]RequirementConfig{}
+			}
+			c.Requirements[rs()] = req(goodP[rng.Intn(len(goodP))], goodV[rng.Intn(len(goodV))])
+		}
+		if !c19valid(c) {
+			return &Config{Name: "n", Requirements: map[string]RequirementConfig{"dep": req("a/b@v2", "v2.0.0-rc.1")}}
+		}
+		return c
+	}
+	cfgA := &Config{Name: "project", Version: "v1.2.3", Ignore: []string{"**/testdata"}, Requirements: map[string]RequirementConfig{"alpha": req("reqs/alpha", "v1.2.3")}}
+	cfgB := &Config{Name: "project", Version: "v1.2.3", Ignore: []string{"**/testdata"}, Requirements: map[string]RequirementConfig{
+		"alpha": req("reqs/alpha", "v1.2.4"), "a b": req("reqs/beta@v2", "v2.0.0")}}
+	// (1) every ordered pair of spellings of ONE file: write, load through L, rewrite through W (what get/tidy do), load through L
+	same0 := []int{0, 1, 2, 3, 4, 5, 6, 7, 8, 9, 10, 11}
+	for _, l := range same0 {
+		for _, wsp := range same0 {
+			doSession("spelling-pair", session{init: [3]bool{true, false, false}, ops: []sop{{kind: "write", sp: 0, cfg: cfgA}, {kind: "load", sp: l},
+				{kind: "write", sp: wsp, cfg: cfgB}, {kind: "load", sp: l}, {kind: "load", sp: wsp}}})
+		}
+	}
+	// (2) a load BEFORE the first write (an absent or empty file), then the write through another spelling
+	for _, l := range same0 {
+		for _, present := range []bool{false, true} {
+			doSession("load-before-first-write", session{init: [3]bool{present, false, false}, ops: []sop{{kind: "load", sp: l},
+				{kind: "write", sp: same0[(l+5)%len(same0)], cfg: tiny()}, {kind: "load", sp: l}, {kind: "write", sp: l, cfg: tiny()}, {kind: "load", sp: 0}}})
+		}
+	}
+	// (3) one spelling, different files: a relative path across a change of directory, a symbolic link that is re-pointed
+	for _, rel := range []int{8, 9} {
+		for to := 1; to <= 2; to++ {
+			doSession("one-spelling-two-files", session{ops: []sop{{kind: "write", sp: rel, cfg: cfgA}, {kind: "load", sp: rel}, {kind: "chdir", to: to},
+				{kind: "write", sp: 12 + to - 1, cfg: cfgB}, {kind: "load", sp: rel}, {kind: "write", sp: rel, cfg: tiny()}, {kind: "chdir", to: 0}, {kind: "load", sp: rel}, {kind: "load", sp: 12 + to - 1}}})
+		}
+	}
+	doSession("one-spelling-two-files", session{ops: []sop{{kind: "write", sp: 11, cfg: cfgA}, {kind: "load", sp: 11}, {kind: "write", sp: 12, cfg: cfgB}, {kind: "retarget", to: 1},
+		{kind: "load", sp: 11}, {kind: "write", sp: 11, cfg: tiny()}, {kind: "retarget", to: 0}, {kind: "load", sp: 11}, {kind: "load", sp: 14}}})
+	// (4) random sessions over everything
+	nrs, _ := strconv.Atoi(os.Getenv("VERIF_NSESSION"))
+	if nrs == 0 {
+		nrs = 60
+	}
+	for i := 0; i < nrs; i++ {
+		se := session{init: [3]bool{rng.Intn(2) == 0, rng.Intn(2) == 0, rng.Intn(2) == 0}}
+		for n := 5 + rng.Intn(10); n > 0; n-- {
+			switch o := rng.Intn(10); {
+			case o < 4:
+				se.ops = append(se.ops, sop{kind: "write", sp: rng.Intn(nSp), cfg: tiny()})
+			case o < 8:
+				se.ops = append(se.ops, sop{kind: "load", sp: rng.Intn(nSp)})
+			case o == 8:
+				se.ops = append(se.ops, sop{kind: "chdir", to: rng.Intn(3)})
+			default:
+				se.ops = append(se.ops, sop{kind: "retarget", to: rng.Intn(2)})
+			}
+		}
+		doSession("random", se)
+	}
+	rwStats["sessions"] = nSess
 	emit(map[string]any{"t": "rwstats", "counts": rwStats})
 }
